@@ -111,125 +111,7 @@ func runC09(w *core.World, r *core.Report) {
 		r.Undecided("R2", "capacity oracle", add.Pos(), "no function called by both Add and Update reads CacheSize")
 	}
 
-	// ---- R1 -----------------------------------------------------------------------------------
-	n1 := 0
-	for _, fn := range w.FuncsIn("cache") {
-		for _, b := range fn.Blocks {
-			for _, in := range b.Instrs {
-				cv, ok := in.(*ssa.Convert)
-				if !ok {
-					continue
-				}
-				bt, ok := cv.Type().Underlying().(*types.Basic)
-				if !ok || bt.Info()&types.IsInteger == 0 {
-					continue
-				}
-				if len(lenArgs(cv.X, nil)) == 0 {
-					continue
-				}
-				n1++
-				narrow := false
-				switch bt.Kind() {
-				case types.Int8, types.Uint8, types.Int16, types.Uint16:
-					narrow = true
-				}
-				if !narrow {
-					r.OK("R1", fmt.Sprintf("%s: %s(len)", core.QName(fn), bt.Name()), cv.Pos(), "at least 32 bits")
-					continue
-				}
-				// does it reach a comparison?
-				cmp := false
-				for v := range core.Forward(cv, nil) {
-					if refs := v.Referrers(); refs != nil {
-						for _, u := range *refs {
-							if bo, ok := u.(*ssa.BinOp); ok {
-								switch bo.Op {
-								case token.LSS, token.LEQ, token.GTR, token.GEQ, token.EQL, token.NEQ:
-									cmp = true
-								}
-							}
-						}
-					}
-				}
-				r.Check(!cmp, "R1", fmt.Sprintf("%s: %s(len)", core.QName(fn), bt.Name()), cv.Pos(), "not compared",
-					"a length is truncated to "+bt.Name()+" before a comparison: a value of 2^16+n bytes passes a limit of n")
-			}
-		}
-	}
-	r.Floor("R1", "length conversions in package cache", n1, 4)
-
-	// ---- R2 / R3 ------------------------------------------------------------------------------
-	for _, fn := range []*ssa.Function{add, upd} {
-		valueParam := valueParamOf(fn)
-		if valueParam == nil {
-			r.Undecided("R2", core.QName(fn)+": value parameter", fn.Pos(), "cannot identify the value parameter (the one stored into a frame map)")
-			continue
-		}
-		succ := isSuccessReturnPred(fn)
-		// limit comparison (directly, or inside a helper of package cache that is given the value)
-		limitCut, nlim := limitEdges(fn, valueParam, 0)
-		if nlim == 0 {
-			r.Bad("R2", core.QName(fn)+": per-symbol limit test", fn.Pos(), "no comparison of len(value) with the symbol's size limit")
-		} else {
-			in, path := core.Reach(core.Entry(fn), succ, core.NewCut().AddEdge(limitCut...))
-			r.Check(in == nil, "R2", core.QName(fn)+": per-symbol limit test", fn.Pos(), "every success path passes 'within limit' or 'limit is 0'",
-				"a value can be stored without passing the per-symbol limit comparison: "+w.PathString(path))
-		}
-		// capacity oracle
-		var capCut []core.Edge
-		ncap := 0
-		for _, c := range callsToSet(fn, oracles) {
-			call, ok := c.(*ssa.Call)
-			if !ok {
-				continue
-			}
-			if call.Call.Args[len(call.Call.Args)-1] != ssa.Value(valueParam) {
-				r.Bad("R2", core.QName(fn)+": capacity test operand", call.Pos(), "the capacity oracle is not asked about the value being stored")
-			}
-			for _, v := range forwardVals(call) {
-				if refs := v.Referrers(); refs != nil {
-					for _, u := range *refs {
-						if bo, ok := u.(*ssa.BinOp); ok && (bo.Op == token.EQL || bo.Op == token.NEQ) {
-							if k, ok := core.ConstInt(bo.Y); ok && k == 0 {
-								ncap++
-								capCut = append(capCut, core.EdgesWhere(bo, bo.Op == token.NEQ)...)
-							}
-						}
-					}
-				}
-			}
-		}
-		// empty value edge: len(value) > 0 false / len(value)==0 true
-		for _, b := range fn.Blocks {
-			for _, in := range b.Instrs {
-				bo, ok := in.(*ssa.BinOp)
-				if !ok {
-					continue
-				}
-				isLenV := false
-				for _, a := range lenArgs(bo.X, nil) {
-					if a == ssa.Value(valueParam) {
-						isLenV = true
-					}
-				}
-				if c, ok := core.ConstInt(bo.Y); ok && c == 0 && isLenV {
-					switch bo.Op {
-					case token.GTR, token.NEQ:
-						capCut = append(capCut, core.EdgesWhere(bo, false)...)
-					case token.EQL, token.LEQ:
-						capCut = append(capCut, core.EdgesWhere(bo, true)...)
-					}
-				}
-			}
-		}
-		if ncap == 0 {
-			r.Bad("R2", core.QName(fn)+": capacity test", fn.Pos(), "the capacity oracle's result is never tested")
-		} else {
-			in, path := core.Reach(core.Entry(fn), succ, core.NewCut().AddEdge(capCut...))
-			r.Check(in == nil, "R2", core.QName(fn)+": capacity test", fn.Pos(), "every success path passes the oracle's 'fits' edge or the empty-value edge",
-				"a value can be stored without passing the capacity test: "+w.PathString(path))
-		}
-	}
+	checkCacheLimits(w, r, oracles, add, upd, "R1", "R2")
 	for f := range oracles {
 		checkOracle(w, r, f)
 	}
@@ -757,4 +639,127 @@ func limitEdges(fn *ssa.Function, v *ssa.Parameter, depth int) ([]core.Edge, int
 		}
 	}
 	return cut, n
+}
+
+// checkCacheLimits holds the limit rules (C09 R1, R2 per-method guards); C05 R7 evaluates the same.
+func checkCacheLimits(w *core.World, r *core.Report, oracles map[*ssa.Function]bool, add, upd *ssa.Function, r1, r2 string) {
+	// ---- R1 -----------------------------------------------------------------------------------
+	n1 := 0
+	for _, fn := range w.FuncsIn("cache") {
+		for _, b := range fn.Blocks {
+			for _, in := range b.Instrs {
+				cv, ok := in.(*ssa.Convert)
+				if !ok {
+					continue
+				}
+				bt, ok := cv.Type().Underlying().(*types.Basic)
+				if !ok || bt.Info()&types.IsInteger == 0 {
+					continue
+				}
+				if len(lenArgs(cv.X, nil)) == 0 {
+					continue
+				}
+				n1++
+				narrow := false
+				switch bt.Kind() {
+				case types.Int8, types.Uint8, types.Int16, types.Uint16:
+					narrow = true
+				}
+				if !narrow {
+					r.OK(r1, fmt.Sprintf("%s: %s(len)", core.QName(fn), bt.Name()), cv.Pos(), "at least 32 bits")
+					continue
+				}
+				// does it reach a comparison?
+				cmp := false
+				for v := range core.Forward(cv, nil) {
+					if refs := v.Referrers(); refs != nil {
+						for _, u := range *refs {
+							if bo, ok := u.(*ssa.BinOp); ok {
+								switch bo.Op {
+								case token.LSS, token.LEQ, token.GTR, token.GEQ, token.EQL, token.NEQ:
+									cmp = true
+								}
+							}
+						}
+					}
+				}
+				r.Check(!cmp, r1, fmt.Sprintf("%s: %s(len)", core.QName(fn), bt.Name()), cv.Pos(), "not compared",
+					"a length is truncated to "+bt.Name()+" before a comparison: a value of 2^16+n bytes passes a limit of n")
+			}
+		}
+	}
+	r.Floor(r1, "length conversions in package cache", n1, 4)
+
+	// ---- R2 / R3 ------------------------------------------------------------------------------
+	for _, fn := range []*ssa.Function{add, upd} {
+		valueParam := valueParamOf(fn)
+		if valueParam == nil {
+			r.Undecided(r2, core.QName(fn)+": value parameter", fn.Pos(), "cannot identify the value parameter (the one stored into a frame map)")
+			continue
+		}
+		succ := isSuccessReturnPred(fn)
+		// limit comparison (directly, or inside a helper of package cache that is given the value)
+		limitCut, nlim := limitEdges(fn, valueParam, 0)
+		if nlim == 0 {
+			r.Bad(r2, core.QName(fn)+": per-symbol limit test", fn.Pos(), "no comparison of len(value) with the symbol's size limit")
+		} else {
+			in, path := core.Reach(core.Entry(fn), succ, core.NewCut().AddEdge(limitCut...))
+			r.Check(in == nil, r2, core.QName(fn)+": per-symbol limit test", fn.Pos(), "every success path passes 'within limit' or 'limit is 0'",
+				"a value can be stored without passing the per-symbol limit comparison: "+w.PathString(path))
+		}
+		// capacity oracle
+		var capCut []core.Edge
+		ncap := 0
+		for _, c := range callsToSet(fn, oracles) {
+			call, ok := c.(*ssa.Call)
+			if !ok {
+				continue
+			}
+			if call.Call.Args[len(call.Call.Args)-1] != ssa.Value(valueParam) {
+				r.Bad(r2, core.QName(fn)+": capacity test operand", call.Pos(), "the capacity oracle is not asked about the value being stored")
+			}
+			for _, v := range forwardVals(call) {
+				if refs := v.Referrers(); refs != nil {
+					for _, u := range *refs {
+						if bo, ok := u.(*ssa.BinOp); ok && (bo.Op == token.EQL || bo.Op == token.NEQ) {
+							if k, ok := core.ConstInt(bo.Y); ok && k == 0 {
+								ncap++
+								capCut = append(capCut, core.EdgesWhere(bo, bo.Op == token.NEQ)...)
+							}
+						}
+					}
+				}
+			}
+		}
+		// empty value edge: len(value) > 0 false / len(value)==0 true
+		for _, b := range fn.Blocks {
+			for _, in := range b.Instrs {
+				bo, ok := in.(*ssa.BinOp)
+				if !ok {
+					continue
+				}
+				isLenV := false
+				for _, a := range lenArgs(bo.X, nil) {
+					if a == ssa.Value(valueParam) {
+						isLenV = true
+					}
+				}
+				if c, ok := core.ConstInt(bo.Y); ok && c == 0 && isLenV {
+					switch bo.Op {
+					case token.GTR, token.NEQ:
+						capCut = append(capCut, core.EdgesWhere(bo, false)...)
+					case token.EQL, token.LEQ:
+						capCut = append(capCut, core.EdgesWhere(bo, true)...)
+					}
+				}
+			}
+		}
+		if ncap == 0 {
+			r.Bad(r2, core.QName(fn)+": capacity test", fn.Pos(), "the capacity oracle's result is never tested")
+		} else {
+			in, path := core.Reach(core.Entry(fn), succ, core.NewCut().AddEdge(capCut...))
+			r.Check(in == nil, r2, core.QName(fn)+": capacity test", fn.Pos(), "every success path passes the oracle's 'fits' edge or the empty-value edge",
+				"a value can be stored without passing the capacity test: "+w.PathString(path))
+		}
+	}
 }
